@@ -25,7 +25,8 @@ LEVEL_TEXT = ("Theorems in Coq (Properties/C14.v). In every state reachable from
               "(c14_timeout_only_after_full_period, c14_tick_keeps_unexpired); a leader change leaves records, sessions and shadow keys as they "
               "were and arms every session it finds with a full timeout (c14_leader_change_keeps_db); KeyToId inverts SessionKey on every "
               "offset-valued id and, PARTIAL, Initialize finds every session whose key holds decodable metadata "
-              "(c14_key_to_id_session_key, c14_leader_init_finds_session_partial).")
+              "(c14_key_to_id_session_key, c14_leader_init_finds_session_partial); the end of a session is a single request "
+              "(c14_cleanup_write_is_one_request), which the sessions leg checks on the real leader's log.")
 LEVEL_NOTE = ("Trusted: Coq kernel, extraction (ExtrOcamlBasic), the Go harnesses (gating kv.Factory wrapper, canonicalisation). Partial where the "
               "property lives in the runtime: real timers and goroutine scheduling are not modelled (time.Timer never fires early is assumed); the "
               "sessions leg checks expiry times against the START of the last arming call with a 0.6 x timeout bound only. SessionMetadata "
@@ -44,7 +45,10 @@ RULE = ("db14: one case = a fresh real DB driven through 15-45 steps (session cr
         "every write; distinct by generator sub-seed; the three refutation witnesses run first. sessions: real leaderController + "
         "sessionManager per scenario (expiry without heartbeats, heartbeats then silence, leader change over the same WAL/DB, writes under "
         "dead sessions, takeovers, and session.delete() parked between its List and its Write on the CloseSession and the expiry path with 5 "
-        "kinds of interleaved traffic); distinct by scenario parameters")
+        "kinds of interleaved traffic, sessions owning 0/1/999/1000/1001/1500 records ended by CloseSession and by expiry); every session "
+        "end is monitored on the leader's WAL (one log entry deleting all owned records, the session key and the shadow range) and a real new "
+        "leader is started from the log prefix ending at each entry of the cleanup (alive => all records, gone => none); distinct by scenario "
+        "parameters")
 LEGS = [
     {"name": "db14", "harness": "db", "model": "db", "n_quick": 600, "n_thorough": 20000, "args": ["-mode", "c14"],
      "corpus": "corpus/db14", "timeout": 600, "timeout_thorough": 3000},
